@@ -57,7 +57,7 @@ def run(check: Check) -> None:
     check.info["rule"] = "configuration = (term family, intercept, ensure_full_rank, output); distinct = distinct (formula, options)"
     check.bounds.update({"rows": mc.NROWS, "terms_per_formula": "<=3", "factors_per_term": "<=3", "levels": "A:3, B:2",
                          "literal_scalings": ["2.5", "3"], "outputs": ["pandas", "numpy"]})
-    check.out_of_scope += ["sparse output (scipy.sparse cannot hold symbolic cells)", "numeric columns arriving as DataFrame columns (Series branch of the encoders) — replays use that branch",
+    check.out_of_scope += ["sparse output, numeric data as DataFrame columns (Series branch of the encoders) and the narwhals materializer are NOT solver-decided: scipy/narwhals cannot hold symbolic cells; the same oracle is run natively at one generic point per configuration (group matrix.other_branches/ground)",
                            "non-treatment contrasts (C11)", "more than 3 terms / 3 factors per term"]
     cases = []
     seen = set()
@@ -119,6 +119,16 @@ def _case(check: Check, case, record=False):
                     return (f"matrix(efr={efr})", bad, cand)
             return None
 
+        # ground companion (NOT solver-decided): the same label oracle at one generic point through the branches symbolic cells
+        # cannot reach - numeric data as DataFrame columns (Series branch of the encoders), sparse output, narwhals materializer
+        if out == "pandas":
+            base = {"kind": "c02_matrix", "formula": formula, "efr": efr, "terms": [[list(t.factors), list(t.lits)] for t in fam],
+                    "a": [float(i) * 1.25 + 0.5 for i in range(n)], "b": [(float(3 * i + 1) % 7) * 0.75 - 1.3 for i in range(n)]}
+            for extra in ({"output": "sparse"}, {"output": "numpy", "materializer": "narwhals"}, {"output": "sparse", "materializer": "narwhals"}):
+                bad = replays.run({**base, **extra})
+                check.obligation("matrix.other_branches/ground", "refuted" if bad else "ground")
+                if bad:
+                    check.violation(f"matrix(efr={efr},{extra})::{bad.split(':', 1)[0]}", bad, {**base, **extra})
         rig.run_sym(check, "matrix", fn, claims, replay=rep, timeout_ms=tmo, case_id=ident,
                     sample={"formula": formula, "ensure_full_rank": efr, "output": out, "data": "a,b in R^7 symbolic; A,B crossed"},
                     record=record)
